@@ -1,5 +1,6 @@
 /- Line-protocol driver for C02 (cross-reference resolution). -/
 import PdfVerif.Spec.Xref
+import PdfVerif.Spec.XrefWrite
 
 open PdfVerif PdfVerif.Xref PdfVerif.Gen.Xref
 
@@ -99,6 +100,27 @@ def openDoc (st : St) (bufsiz : Nat) : Except Err (List (Xref.Section × Trailer
     | .ok r => .ok r.1
     | .error e => .error e
 
+def parseTEntry (s : String) : Option TEntry :=
+  match s.splitOn "/" with
+  | [p, g, u] =>
+    match p.toNat?, g.toNat? with
+    | some p, some g => if u == "n" then some ⟨p, g, true⟩ else if u == "f" then some ⟨p, g, false⟩ else none
+    | _, _ => none
+  | _ => none
+
+def parseSub (s : String) : Option Sub :=
+  match s.splitOn ":" with
+  | [a, ws, wc, es] =>
+    match a.toNat?, ws.toNat?, wc.toNat?, (if es == "-" then some [] else (es.splitOn ",").mapM parseTEntry) with
+    | some a, some ws, some wc, some es => some ⟨a, ws, wc, es⟩
+    | _, _, _, _ => none
+  | _ => none
+
+def parseRow (s : String) : Option Row :=
+  match (s.splitOn "/").mapM (·.toNat?) with
+  | some [a, b, c] => some (a, b, c)
+  | _ => none
+
 def step (st : St) (line : String) : St × String :=
   match words line with
   | ["reset"] => ({}, "ok")
@@ -193,6 +215,16 @@ def step (st : St) (line : String) : St × String :=
         | .ok (offs, tp) => s!"ok {tp} {showOffs offs}"
         | .error e => "E " ++ showErr e)
     | none => (st, "bad-op")
+  | ["q.render", eol, ee, subs] =>
+    let eol? : Option LineEol := if eol == "lf" then some .lf else if eol == "crlf" then some .crlf else if eol == "cr" then some .cr else none
+    let ee? : Option EntEol := if ee == "splf" then some .spLf else if ee == "crlf" then some .crLf else if ee == "spcr" then some .spCr else none
+    match eol?, ee?, (if subs == "-" then some [] else (subs.splitOn ";").mapM parseSub) with
+    | some eol, some ee, some subs => (st, hexOrDash (renderTable eol ee subs))
+    | _, _, _ => (st, "bad-op")
+  | ["q.encrows", w, rows] =>
+    match csvNat w, (if rows == "-" then some [] else (rows.splitOn ",").mapM parseRow) with
+    | some [w1, w2, w3], some rows => (st, hexOrDash (encodeRows w1 w2 w3 rows))
+    | _, _ => (st, "bad-op")
   | ["q.fallback"] =>
     let ends := st.ends.filterMap (fun (p, e) =>
       match lookupNat st.objs p with
